@@ -572,6 +572,10 @@ func nonNeg(t *Term) bool {
 		return true
 	case t.K == KSym && t.Sym.Kind == SIter:
 		return true // iteration counters start at 0
+	case t.K == KSym && t.Sym.Kind == SIterEnd:
+		return true
+	case t.K == KSym && t.Sym.Attr != nil && t.Sym.Attr["nonneg"] != nil:
+		return true // a counter that starts non-negative and never decreases (markMonotoneCounters)
 	case t.Op == "iabs":
 		return true
 	case t.Op == "imax":
@@ -632,6 +636,14 @@ func (s *Store) le0(d *Term) *Term {
 	}
 	if r := s.liftSel(d, s.le0); r != nil {
 		return r
+	}
+	// a sum of non-negative terms plus a positive constant is positive
+	if d.Op == "lin" && d.Off.Sign() > 0 && nonNeg(d) {
+		return s.False
+	}
+	// minus a sum of non-negative terms is never positive
+	if d.Op == "lin" && d.Off.Sign() <= 0 && len(d.Args) > 1 && nonNeg(s.Neg(d)) {
+		return s.True
 	}
 	// x > 0 on a non-negative x is x != 0 ; x <= 0 is x == 0
 	if as, cs, off := linParts(d); len(as) == 1 && nonNeg(as[0]) {
@@ -913,4 +925,31 @@ func (s *Store) intSel(op string, args ...*Term) *Term {
 		a, b = b, a
 	}
 	return s.mkOp(op, TInt, a, b)
+}
+
+// Renorm rebuilds t bottom-up through the normalising constructors (after new facts such as Attr["nonneg"] were
+// attached to symbols).
+func (s *Store) Renorm(t *Term, memo map[*Term]*Term) *Term {
+	if t == nil || t.K != KOp {
+		return t
+	}
+	if r, ok := memo[t]; ok {
+		return r
+	}
+	na := make([]*Term, len(t.Args))
+	for i, a := range t.Args {
+		na[i] = s.Renorm(a, memo)
+	}
+	var r *Term
+	if t.Op == "lin" {
+		acc := s.linMake(nil, nil, t.Off)
+		for i, a := range na {
+			acc = s.Add(acc, s.MulC(a, t.Coefs[i]))
+		}
+		r = acc
+	} else {
+		r = s.rebuild(t, na)
+	}
+	memo[t] = r
+	return r
 }
